@@ -231,6 +231,13 @@ def build_harness(race=False):
     return True, "\n".join(outs)
 
 
+def build_race():
+    """Builds the harness a second time with the race detector (C12). Returns an error string or None."""
+    cmd = ["go", "build", "-race", "-tags", "verif", "-o", os.path.join(BUILD, "corr-race"), "./cmd/corr"]
+    rc, out, dt = run(cmd, cwd=HARNESS, env=GOENV, timeout=1800)
+    return None if rc == 0 else "race build failed:\n" + out
+
+
 def build_cli():
     """Rebuilds the cdi and validate binaries from /repo's working tree (C19). Returns an error string or None."""
     for name, sub in (("cdi", "cmd/cdi"), ("validate", "cmd/validate")):
